@@ -538,6 +538,15 @@ retry:
       // (24) - this acquire-load synchronizes-with the release-store (8, 12, 16, 20)
       accessor acc = traits::acquire(bucket.value[i], std::memory_order_acquire);
 
+      // The cells of a block that has been replaced by grow() keep their old content, so a guard
+      // acquired through such a cell does not prove that the node has not been removed (via the
+      // new block) and reclaimed in the meantime -> start over with the new block.
+      if (data_block.load(std::memory_order_acquire).get() != b.get()) {
+        acc = accessor();
+        b.reset();
+        return try_get_value(key, result);
+      }
+
       // ensure that we can use the value we just read
       const auto state2 = bucket.state.load(std::memory_order_relaxed);
       if (state.version() != state2.version()) {
@@ -578,6 +587,13 @@ retry:
       // allows to store a new value.
       // (26) - this acquire-load synchronizes-with <nothing>
       accessor acc = traits::acquire(extension->value, std::memory_order_acquire);
+
+      // see above - a guard acquired through a cell of a replaced block proves nothing
+      if (data_block.load(std::memory_order_acquire).get() != b.get()) {
+        acc = accessor();
+        b.reset();
+        return try_get_value(key, result);
+      }
 
       auto state2 = bucket.state.load(std::memory_order_relaxed);
       if (state.version() != state2.version()) {
